@@ -11,7 +11,8 @@
    again.  The expiry field of the format is 4 bytes: `l_expire li < 2 ^ 32`. *)
 From Coq Require Import List NArith Bool.
 From Verif Require Import Lib.Hex Gen.MutConsts Model.MutContainer Model.Lease
-  Proofs.MutContainerBytes Proofs.MutContainer Proofs.LeaseMutable Proofs.LeaseImmutable Proofs.Lease Proofs.LeaseFinal.
+  Proofs.MutContainerBytes Proofs.MutContainer Proofs.LeaseMutable Proofs.LeaseImmutable Proofs.Lease Proofs.LeaseFinal
+  Proofs.LeaseCancel.
 Import ListNotations.
 Local Open Scope N_scope.
 
@@ -91,6 +92,27 @@ Theorem leases_survive_writes :
 Proof. exact leases_survive_writes_proof. Qed.
 Print Assumptions leases_survive_writes.
 
+(* ---- cancel_lease (the lease-expiry crawler) removes exactly the leases answering to the secret ------- *)
+(* mutable lease slots are never packed: the cancelled record is blanked in place.  Every other
+   lease keeps its slot number and stays enumerable -- also the ones in LATER slots, behind the
+   now unused one -- so it can still be renewed and is not duplicated by a later add (with
+   renew_not_duplicate on the resulting file); data and layout are untouched.  No lease answers:
+   IndexError, file unchanged.  No lease remains: the share file is removed. *)
+Theorem cancel_removes_only_matching_leases :
+  forall H maxsz v f cs E,
+    layout_ok maxsz f = true -> mut_enumerate f = Ok E ->
+    let kept := filter (fun il => negb (is_cancel_secret H v (snd il) cs)) E in
+    let gone := filter (fun il => is_cancel_secret H v (snd il) cs) E in
+    match gone, kept with
+    | [], _ => mut_cancel_lease H v f cs = (Some f, Some EIndex)
+    | _ :: _, [] => mut_cancel_lease H v f cs = (None, None)
+    | _ :: _, _ :: _ =>
+        exists f', mut_cancel_lease H v f cs = (Some f', None) /\ layout_ok maxsz f' = true /\
+                   abs_data f' = abs_data f /\ mut_enumerate f' = Ok kept
+    end.
+Proof. exact cancel_lease_proof. Qed.
+Print Assumptions cancel_removes_only_matching_leases.
+
 (* ---- v2 containers: the file is a function of the hashed secrets only ------------------------------------- *)
 (* two client leases with the same hashes (and owner, expiry, nodeid) have exactly the same
    effect on any file, and two candidate secrets with the same hash renew alike: the cleartext
@@ -144,6 +166,19 @@ Example ex_add_then_renew :
   mut_renew_lease ex_H V2 ex_f1 (ex_sec 3) 900 = Raised ex_f1 EIndex /\
   (* the hash of the secret is not accepted in place of the secret *)
   mut_renew_lease ex_H V2 ex_f1 (ex_H (ex_sec 1)) 900 = Raised ex_f1 EIndex.
+Proof. vm_compute. repeat split. Qed.
+
+Definition ex_f2 : file := out_file (mut_add_or_renew ex_H V2 ex_f1 1000 (ex_li 2 600)).
+Definition ex_f3 : file := match fst (mut_cancel_lease ex_H V2 ex_f2 (ex_sec 101)) with Some f => f | None => [] end.
+
+Example ex_cancel_older_keeps_later :
+  mut_enumerate ex_f2 = Ok [(0, hash_lease ex_H (ex_li 1 500)); (1, hash_lease ex_H (ex_li 2 600))] /\
+  mut_cancel_lease ex_H V2 ex_f2 (ex_sec 101) = (Some ex_f3, None) /\
+  mut_enumerate ex_f3 = Ok [(1, hash_lease ex_H (ex_li 2 600))] /\
+  mut_get_leases (out_file (mut_renew_lease ex_H V2 ex_f3 (ex_sec 2) 900)) = Ok [hash_lease ex_H (ex_li 2 900)] /\
+  mut_get_leases (out_file (mut_add_or_renew ex_H V2 ex_f3 1000 (ex_li 2 900))) = Ok [hash_lease ex_H (ex_li 2 900)] /\
+  mut_cancel_lease ex_H V2 ex_f3 (ex_sec 101) = (Some ex_f3, Some EIndex) /\
+  mut_cancel_lease ex_H V2 ex_f3 (ex_sec 102) = (None, None).
 Proof. vm_compute. repeat split. Qed.
 
 Definition ex_i0 : file := imm_header V1 10 ++ repeat 5 10.
